@@ -1,1 +1,301 @@
-(* placeholder *)
+(* Proofs for C17: the C binding's handle table.  No call aborts (the two parsers are total), failing calls
+   leave the table unchanged, successful calls have the effect of the Rust operation, and the number of live
+   handles is allocations minus frees. *)
+From Coq Require Import List ZArith NArith Bool Arith String Lia.
+From CE Require Import Num Str TableTypes TableModel Comp ESpec Formula FormulaSpec CBind FormulaSafe ESpecProofs.
+Import ListNotations.
+(* NOT Local, on purpose: TableModel.v does a global [Open Scope Z_scope], so in Properties/C17.v the accounting
+   statement [live_count _ + frees _ = allocs _] would be read in Z_scope and fail to typecheck.  This file is the
+   last import of C17.v, so exporting nat_scope here puts it back on top there.  All Z literals in C17.v are either
+   explicitly [%Z] or arguments of RCode/RAlloc (argument scope Z_scope), so nothing else changes meaning. *)
+Local Open Scope nat_scope.
+
+(* ------------------------------------------------------------------------------------------ *)
+(* handle-table facts (independent of the table and the unicode oracles) *)
+
+Lemma live_count_app : forall (hs : handles) l, live_count (hs ++ [Some l]) = S (live_count hs).
+Proof.
+  intros hs l. unfold live_count. rewrite filter_app, app_length. simpl. lia.
+Qed.
+
+Lemma live_count_cons : forall (o : option ents) (hs : handles),
+  live_count (o :: hs) = (match o with Some _ => 1 | None => 0 end) + live_count hs.
+Proof. intros [l|] hs; unfold live_count; simpl; reflexivity. Qed.
+
+Lemma live_cons_S : forall (o : option ents) (hs : handles) h, live (o :: hs) (S h) = live hs h.
+Proof. reflexivity. Qed.
+
+Lemma live_count_set_some : forall (hs : handles) h l l',
+  live hs h = Some l -> live_count (set_h hs h (Some l')) = live_count hs.
+Proof.
+  induction hs as [|o hs IH]; intros h l l' H.
+  - destruct h; discriminate H.
+  - destruct h as [|h].
+    + unfold live in H. simpl in H. destruct o; [|discriminate]. simpl. rewrite !live_count_cons. reflexivity.
+    + rewrite live_cons_S in H. simpl. rewrite !live_count_cons. rewrite (IH _ _ l' H). reflexivity.
+Qed.
+
+Lemma live_count_set_none : forall (hs : handles) h l,
+  live hs h = Some l -> S (live_count (set_h hs h None)) = live_count hs.
+Proof.
+  induction hs as [|o hs IH]; intros h l H.
+  - destruct h; discriminate H.
+  - destruct h as [|h].
+    + unfold live in H. simpl in H. destruct o; [|discriminate]. simpl. rewrite !live_count_cons. reflexivity.
+    + rewrite live_cons_S in H. simpl. rewrite !live_count_cons. rewrite <- (IH _ _ H). lia.
+Qed.
+
+Lemma nth_error_set_h_other : forall (hs : handles) h v q,
+  q <> h -> nth_error (set_h hs h v) q = nth_error hs q.
+Proof.
+  induction hs as [|o hs IH]; intros h v q Hq.
+  - destruct h; reflexivity.
+  - destruct h as [|h]; destruct q as [|q]; simpl; try reflexivity.
+    + congruence.
+    + apply IH. congruence.
+Qed.
+
+Section CBindProofs.
+  Variable tbl : list (string * elem).
+  Variable uni_numeric uni_alphabetic : char -> bool.
+  Notation step := (cstep tbl uni_numeric uni_alphabetic).
+
+  (* ---------------------------------------------------------------------------------------- *)
+  Lemma no_abort : forall hs c, snd (step hs c) <> RAbort.
+  Proof.
+    intros hs c. destruct c; simpl.
+    - discriminate.
+    - pose proof (parse_formula_no_panic uni_numeric (has_elem tbl) (has_iso tbl) text) as P.
+      destruct (parse_formula uni_numeric (has_elem tbl) (has_iso tbl) text); simpl; try discriminate.
+      congruence.
+    - destruct (live hs h); simpl; discriminate.
+    - destruct (live hs h); simpl; discriminate.
+    - destruct (live hs h); simpl; try discriminate.
+      pose proof (parse_total tbl text) as P.
+      destruct (espec_parse tbl text); simpl; try discriminate. congruence.
+    - destruct (live hs h); simpl; try discriminate.
+      pose proof (parse_total tbl text) as P.
+      destruct (espec_parse tbl text); simpl; try discriminate. congruence.
+    - destruct (live hs h); [destruct (live hs g)|]; simpl; discriminate.
+    - destruct (live hs h); [destruct (live hs g)|]; simpl; discriminate.
+    - destruct (live hs h); simpl; discriminate.
+    - destruct (live hs h); simpl; discriminate.
+    - destruct (live hs h); simpl; discriminate.
+  Qed.
+
+  (* ---------------------------------------------------------------------------------------- *)
+  Lemma errors_change_nothing : forall hs c,
+    (forall code isnull, snd (step hs c) = RAlloc code isnull -> code <> 0%Z -> fst (step hs c) = hs /\ isnull = true)
+    /\ (forall code, snd (step hs c) = RCode code -> code <> 0%Z -> fst (step hs c) = hs)
+    /\ (forall v, snd (step hs c) = RValue v -> fst (step hs c) = hs)
+    /\ (snd (step hs c) = RMass -> fst (step hs c) = hs)
+    /\ (snd (step hs c) = RContract -> fst (step hs c) = hs).
+  Proof.
+    intros hs c.
+    assert (T : forall (x : handles * cresult),
+      x = step hs c ->
+      (forall code isnull, snd x = RAlloc code isnull -> code <> 0%Z -> fst x = hs /\ isnull = true)
+      /\ (forall code, snd x = RCode code -> code <> 0%Z -> fst x = hs)
+      /\ (forall v, snd x = RValue v -> fst x = hs)
+      /\ (snd x = RMass -> fst x = hs)
+      /\ (snd x = RContract -> fst x = hs)); [| apply (T _ eq_refl)].
+    intros x Hx.
+    assert (OK0 : forall hs', x = (hs', RCode 0) ->
+      (forall code isnull, snd x = RAlloc code isnull -> code <> 0%Z -> fst x = hs /\ isnull = true)
+      /\ (forall code, snd x = RCode code -> code <> 0%Z -> fst x = hs)
+      /\ (forall v, snd x = RValue v -> fst x = hs)
+      /\ (snd x = RMass -> fst x = hs)
+      /\ (snd x = RContract -> fst x = hs)).
+    { intros hs' ->. simpl. repeat split; try discriminate. intros code E. inversion E. congruence. }
+    assert (OKA : forall hs', x = (hs', RAlloc 0 false) ->
+      (forall code isnull, snd x = RAlloc code isnull -> code <> 0%Z -> fst x = hs /\ isnull = true)
+      /\ (forall code, snd x = RCode code -> code <> 0%Z -> fst x = hs)
+      /\ (forall v, snd x = RValue v -> fst x = hs)
+      /\ (snd x = RMass -> fst x = hs)
+      /\ (snd x = RContract -> fst x = hs)).
+    { intros hs' ->. simpl. repeat split; try discriminate; inversion H; congruence. }
+    assert (SAME : forall r, x = (hs, r) -> (forall code, r = RAlloc code false -> code = 0%Z) ->
+      (forall code isnull, snd x = RAlloc code isnull -> code <> 0%Z -> fst x = hs /\ isnull = true)
+      /\ (forall code, snd x = RCode code -> code <> 0%Z -> fst x = hs)
+      /\ (forall v, snd x = RValue v -> fst x = hs)
+      /\ (snd x = RMass -> fst x = hs)
+      /\ (snd x = RContract -> fst x = hs)).
+    { intros r -> Hr. simpl. repeat split; try reflexivity.
+      destruct isnull; [reflexivity|]. subst r. specialize (Hr _ eq_refl). congruence. }
+    destruct c; simpl in Hx.
+    - eapply OKA; eassumption.
+    - pose proof (parse_formula_no_panic uni_numeric (has_elem tbl) (has_iso tbl) text) as P.
+      destruct (parse_formula uni_numeric (has_elem tbl) (has_iso tbl) text).
+      + eapply OKA; eassumption.
+      + eapply SAME; [eassumption|]. discriminate.
+      + congruence.
+    - destruct (live hs h).
+      + eapply OKA; eassumption.
+      + eapply SAME; [eassumption|]. discriminate.
+    - destruct (live hs h); (eapply SAME; [eassumption|]; discriminate).
+    - destruct (live hs h); [|eapply SAME; [eassumption|]; discriminate].
+      destruct (espec_parse tbl text).
+      + eapply OK0; eassumption.
+      + eapply SAME; [eassumption|]; discriminate.
+      + eapply SAME; [eassumption|]; discriminate.
+    - destruct (live hs h); [|eapply SAME; [eassumption|]; discriminate].
+      destruct (espec_parse tbl text).
+      + eapply OK0; eassumption.
+      + eapply SAME; [eassumption|]; discriminate.
+      + eapply SAME; [eassumption|]; discriminate.
+    - destruct (live hs h); [destruct (live hs g)|].
+      + eapply OK0; eassumption.
+      + eapply SAME; [eassumption|]; discriminate.
+      + eapply SAME; [eassumption|]; discriminate.
+    - destruct (live hs h); [destruct (live hs g)|].
+      + eapply OK0; eassumption.
+      + eapply SAME; [eassumption|]; discriminate.
+      + eapply SAME; [eassumption|]; discriminate.
+    - destruct (live hs h).
+      + eapply OK0; eassumption.
+      + eapply SAME; [eassumption|]; discriminate.
+    - destruct (live hs h); (eapply SAME; [eassumption|]; discriminate).
+    - destruct (live hs h).
+      + eapply OK0; eassumption.
+      + eapply SAME; [eassumption|]; discriminate.
+  Qed.
+
+  (* ---------------------------------------------------------------------------------------- *)
+  Lemma effects : forall hs h g t n a b,
+    live hs h = Some a -> live hs g = Some b ->
+    (forall k, espec_parse tbl t = EOk k -> step hs (CSet h t n) = (set_h hs h (Some (e_set k n a)), RCode 0))
+    /\ (forall k, espec_parse tbl t = EOk k -> step hs (CInc h t n) = (set_h hs h (Some (e_inc k n a)), RCode 0))
+    /\ (espec_parse tbl t = EErr UnclosedIsotope -> step hs (CSet h t n) = (hs, RCode 1))
+    /\ (espec_parse tbl t = EErr UnknownElement -> step hs (CSet h t n) = (hs, RCode 2))
+    /\ step hs (CAdd h g) = (set_h hs h (Some (e_add a b)), RCode 0)
+    /\ step hs (CSub h g) = (set_h hs h (Some (e_sub a b)), RCode 0)
+    /\ step hs (CScale h n) = (set_h hs h (Some (e_mul a n)), RCode 0)
+    /\ step hs (CGet h t) = (hs, RValue (v_index_str tbl uni_alphabetic t a))
+    /\ step hs (CCopy h) = (hs ++ [Some a], RAlloc 0 false)
+    /\ (forall q, q <> h -> nth_error (set_h hs h (Some (e_add a b))) q = nth_error hs q).
+  Proof.
+    intros hs h g t n a b Ha Hb.
+    repeat split.
+    - intros k Hk. simpl. rewrite Ha, Hk. reflexivity.
+    - intros k Hk. simpl. rewrite Ha, Hk. reflexivity.
+    - intros Hk. simpl. rewrite Ha, Hk. reflexivity.
+    - intros Hk. simpl. rewrite Ha, Hk. reflexivity.
+    - simpl. rewrite Ha, Hb. reflexivity.
+    - simpl. rewrite Ha, Hb. reflexivity.
+    - simpl. rewrite Ha. reflexivity.
+    - simpl. rewrite Ha. reflexivity.
+    - simpl. rewrite Ha. reflexivity.
+    - intros q Hq. apply nth_error_set_h_other. exact Hq.
+  Qed.
+
+  (* ---------------------------------------------------------------------------------------- *)
+  Lemma parse_handle : forall hs t,
+    (forall l, parse_formula uni_numeric (has_elem tbl) (has_iso tbl) t = FOk l -> step hs (CParse t) = (hs ++ [Some l], RAlloc 0 false))
+    /\ (forall e, parse_formula uni_numeric (has_elem tbl) (has_iso tbl) t = FErr e -> step hs (CParse t) = (hs, RAlloc (ferr_code e) true)
+                  /\ (1 <= ferr_code e <= 6)%Z).
+  Proof.
+    intros hs t. split.
+    - intros l H. simpl. rewrite H. reflexivity.
+    - intros e H. split.
+      + simpl. rewrite H. reflexivity.
+      + destruct e; simpl; lia.
+  Qed.
+
+  (* ---------------------------------------------------------------------------------------- *)
+  (* accounting *)
+  Definition f_alloc : ccall -> cresult -> bool := fun _ r => is_alloc_ok r.
+  Definition f_free : ccall -> cresult -> bool :=
+    fun c r => match c, r with CFree _, RCode 0%Z => true | _, _ => false end.
+  Definition cnt (f : ccall -> cresult -> bool) (st : handles * nat) (c : ccall) : handles * nat :=
+    let '(hs, n) := st in
+    let '(hs', r) := step hs c in
+    (hs', if f c r then S n else n).
+
+  Lemma step_count : forall hs c hs' r na nf,
+    step hs c = (hs', r) -> live_count hs + nf = na ->
+    live_count hs' + (if f_free c r then S nf else nf) = (if f_alloc c r then S na else na).
+  Proof.
+    intros hs c hs' r na nf Hs Hinv.
+    assert (ALLOC : forall l, (hs', r) = (hs ++ [Some l], RAlloc 0 false) -> (forall x, c <> CFree x) ->
+      live_count hs' + (if f_free c r then S nf else nf) = (if f_alloc c r then S na else na)).
+    { intros l E Hc. inversion E; subst hs' r. rewrite live_count_app.
+      unfold f_alloc, f_free. simpl. destruct c; try lia. }
+    assert (SAME : forall hs'', (hs', r) = (hs'', r) -> live_count hs'' = live_count hs ->
+      f_free c r = false -> f_alloc c r = false ->
+      live_count hs' + (if f_free c r then S nf else nf) = (if f_alloc c r then S na else na)).
+    { intros hs'' E Hl H1 H2. inversion E; subst hs''. rewrite H1, H2. lia. }
+    destruct c; simpl in Hs; symmetry in Hs.
+    - eapply ALLOC; [eassumption|discriminate].
+    - pose proof (parse_formula_no_panic uni_numeric (has_elem tbl) (has_iso tbl) text) as P.
+      destruct (parse_formula uni_numeric (has_elem tbl) (has_iso tbl) text).
+      + eapply ALLOC; [eassumption|discriminate].
+      + inversion Hs; subst. eapply SAME; try reflexivity. unfold f_alloc. simpl. destruct (ferr_code e); reflexivity.
+      + congruence.
+    - destruct (live hs h).
+      + eapply ALLOC; [eassumption|discriminate].
+      + inversion Hs; subst. eapply SAME; reflexivity.
+    - destruct (live hs h); inversion Hs; subst; eapply SAME; reflexivity.
+    - destruct (live hs h) eqn:L; [|inversion Hs; subst; eapply SAME; reflexivity].
+      destruct (espec_parse tbl text); inversion Hs; subst.
+      + eapply SAME; try reflexivity. eapply live_count_set_some; eassumption.
+      + eapply SAME; reflexivity.
+      + eapply SAME; reflexivity.
+    - destruct (live hs h) eqn:L; [|inversion Hs; subst; eapply SAME; reflexivity].
+      destruct (espec_parse tbl text); inversion Hs; subst.
+      + eapply SAME; try reflexivity. eapply live_count_set_some; eassumption.
+      + eapply SAME; reflexivity.
+      + eapply SAME; reflexivity.
+    - destruct (live hs h) eqn:L; [destruct (live hs g)|]; inversion Hs; subst.
+      + eapply SAME; try reflexivity. eapply live_count_set_some; eassumption.
+      + eapply SAME; reflexivity.
+      + eapply SAME; reflexivity.
+    - destruct (live hs h) eqn:L; [destruct (live hs g)|]; inversion Hs; subst.
+      + eapply SAME; try reflexivity. eapply live_count_set_some; eassumption.
+      + eapply SAME; reflexivity.
+      + eapply SAME; reflexivity.
+    - destruct (live hs h) eqn:L; inversion Hs; subst.
+      + eapply SAME; try reflexivity. eapply live_count_set_some; eassumption.
+      + eapply SAME; reflexivity.
+    - destruct (live hs h); inversion Hs; subst; eapply SAME; reflexivity.
+    - destruct (live hs h) eqn:L; inversion Hs; subst.
+      + unfold f_alloc, f_free. simpl. pose proof (live_count_set_none _ _ _ L). lia.
+      + eapply SAME; reflexivity.
+  Qed.
+
+  Lemma accounting_gen : forall cs hs na nf,
+    live_count hs + nf = na ->
+    live_count (fold_left (fun hs c => fst (step hs c)) cs hs) + snd (fold_left (cnt f_free) cs (hs, nf))
+    = snd (fold_left (cnt f_alloc) cs (hs, na)).
+  Proof.
+    induction cs as [|c cs IH]; intros hs na nf Hinv.
+    - simpl. exact Hinv.
+    - simpl. destruct (step hs c) as [hs' r] eqn:Hs. simpl.
+      apply IH. eapply step_count; eassumption.
+  Qed.
+
+  Lemma accounting : forall cs,
+    live_count (crun tbl uni_numeric uni_alphabetic cs) + frees tbl uni_numeric uni_alphabetic cs
+    = allocs tbl uni_numeric uni_alphabetic cs.
+  Proof.
+    intros cs. exact (accounting_gen cs [] 0 0 eq_refl).
+  Qed.
+
+  (* ---------------------------------------------------------------------------------------- *)
+  Lemma no_use_after_free : forall hs h c,
+    live hs h = None -> uses c h = true -> snd (step hs c) = RContract.
+  Proof.
+    intros hs h c L U.
+    destruct c; simpl in U; try discriminate;
+      try (apply Nat.eqb_eq in U; subst; simpl; rewrite L; reflexivity).
+    - apply orb_true_iff in U. destruct U as [U|U]; apply Nat.eqb_eq in U; subst; simpl.
+      + rewrite L. reflexivity.
+      + destruct (live hs h0); [rewrite L|]; reflexivity.
+    - apply orb_true_iff in U. destruct U as [U|U]; apply Nat.eqb_eq in U; subst; simpl.
+      + rewrite L. reflexivity.
+      + destruct (live hs h0); [rewrite L|]; reflexivity.
+  Qed.
+End CBindProofs.
+
+About no_abort. About errors_change_nothing. About effects. About parse_handle. About accounting. About no_use_after_free.
+Print Assumptions no_abort. Print Assumptions errors_change_nothing. Print Assumptions effects.
+Print Assumptions parse_handle. Print Assumptions accounting. Print Assumptions no_use_after_free.
